@@ -21,7 +21,7 @@ import c08_gen, c08_real, c08_sym, c08_trace, progen
 
 MODEL_FILES = ['MaltModel/Analysis/QualNames.lean', 'MaltModel/Analysis/Activity.lean', 'MaltModel/Analysis/ActivityFn.lean',
                'MaltModel/Analysis/ActivityHyp.lean', 'MaltModel/Spec/Symtable.lean', 'MaltModel/Spec/Dynamic.lean',
-               'MaltModel/Proofs/C08Activity.lean', 'MaltModel/Proofs/C08Dynamic.lean', 'MaltModel/Proofs/C08Classes.lean', 'MaltModel/Proofs/C08Nested.lean',
+               'MaltModel/Proofs/C08Activity.lean', 'MaltModel/Proofs/C08Dynamic.lean', 'MaltModel/Proofs/C08Classes.lean', 'MaltModel/Proofs/C08Nested.lean', 'MaltModel/Proofs/C08Comp.lean', 'MaltModel/Proofs/C08CompDynamic.lean',
                'MaltModel/Drv/C08.lean']
 CLASSES = ['walrusInComp', 'harmfulLeaks', 'classShadow', 'argAnnotations', 'nonlocalBelow', 'globalBelow']
 PRELUDE_LINES = c08_gen.PRELUDE.count('\n')
@@ -230,7 +230,7 @@ def check_cases(run, cases, workdir, label, stats):
             lines += ['c08.activity ' + t, 'c08.classes ' + t, 'c08.spec ' + t, 'c08.units ' + t, 'c08.hyp ' + t, 'c08.frag ' + t]
         answers = run.drive(lines) if lines else []
     results = []
-    dis = {'activity': [], 'classes': [], 'spec-symtable': [], 'trace-in-spec-dynamic': []}
+    dis = {'activity': [], 'classes': [], 'spec-symtable': [], 'trace-in-spec-dynamic': [], 'thm-classes': [], 'thm-dynamic': []}
     for idx, p in enumerate(preps):
         c = p.case
         res = {'case': c, 'failed': [], 'aside': None}
@@ -238,7 +238,7 @@ def check_cases(run, cases, workdir, label, stats):
         nblocks = len(p.sym_flat)
         run.case(c.key, nontrivial=nblocks > 1 or len(p.ser.nodes) > 12)
         stats['blocks'] = stats.get('blocks', 0) + nblocks
-        hyp, units = {}, None
+        hyp, units, fr = {}, None, [False] * 6
         if answers is not None:
             a_act, a_cls, a_spec, a_units, a_hyp, a_frag = answers[NL * idx: NL * idx + NL]
             try:
@@ -253,10 +253,15 @@ def check_cases(run, cases, workdir, label, stats):
             try:
                 fr = [x == 'True' for x in parse_sexp(a_frag)]
             except Exception:
-                fr = [False] * 4
+                fr = []
+            fr = (fr + [False] * 6)[:6]
             if fr[0] and fr[2]:
                 stats['hypotheses_of_C08_dynamic_lookup_hold'] = stats.get('hypotheses_of_C08_dynamic_lookup_hold', 0) + 1
-            if all(fr) and not hyp.get('harmfulLeaks'):
+            if fr[4]:
+                stats['hypotheses_of_C08_compositional_comp_hold'] = stats.get('hypotheses_of_C08_compositional_comp_hold', 0) + 1
+            if fr[5] and fr[2]:
+                stats['hypotheses_of_C08_dynamic_comp_lookup_hold'] = stats.get('hypotheses_of_C08_dynamic_comp_lookup_hold', 0) + 1
+            if all(fr[:4]) and not hyp.get('harmfulLeaks'):
                 stats['hypotheses_of_C08_classes_partial_and_nested_hold'] = stats.get('hypotheses_of_C08_classes_partial_and_nested_hold', 0) + 1
         # ---- set aside exactly what the property sets aside
         if p.impl.crash == 'handlerName':
@@ -279,6 +284,10 @@ def check_cases(run, cases, workdir, label, stats):
         # ---- (3a) direct oracle: classification vs symtable
         for cat, fk, name in static_oracle(p):
             cls = class_of(name, hyp)
+            if all(fr[:4]) and not hyp.get('harmfulLeaks') and fk[0] != 'lambda' and \
+                    cat.split(':')[0] in ('params', 'locals', 'globals', 'nonlocals'):
+                # the hypotheses of C08_classes_nested hold for this tree, yet a def's classification differs
+                dis['thm-classes'].append({'source': c.src, 'observation': [cat, fk[0], name]})
             run_fail(run, stats, 'function %s (line %d): %s %r' % (fk[0], fk[1] - PRELUDE_LINES, cat, name),
                      dict(c.data(), observation=['static', cat, fk[0], fk[1] - PRELUDE_LINES, name]), cls)
             res['failed'].append(cls)
@@ -291,8 +300,17 @@ def check_cases(run, cases, workdir, label, stats):
             stats['traced_unattributed'] = stats.get('traced_unattributed', 0) + p.trace.unattributed
             if p.trace_exc:
                 stats['traced_ended_in:' + p.trace_exc] = stats.get('traced_ended_in:' + p.trace_exc, 0) + 1
+            stmt_units = set()
+            if answers is not None:
+                try:
+                    stmt_units = {(int(u[0]), u[1]) for u in parse_sexp(answers[NL * idx + 3]) if len(u) > 4 and u[4] == 'stmt'}
+                except Exception:
+                    stmt_units = set()
             for kind, nid, key, name in obs:
                 cls = class_of(name, hyp)
+                if fr[5] and fr[2] and (nid, key) in stmt_units:
+                    # the hypotheses of C08_dynamic_comp_lookup hold, yet a statement-level node misses an access
+                    dis['thm-dynamic'].append({'source': c.src, 'observation': [kind, nid, key, name]})
                 run_fail(run, stats, 'executed node %s/%s actually %ss %r, which is not in its %s set'
                          % (nid, key, kind, name, 'read' if kind == 'read' else 'modified/deleted'),
                          dict(c.data(), observation=['dynamic', kind, nid, key, name]), cls)
@@ -448,6 +466,9 @@ def check(run, only_case=None):
         run.oblige('correspondence:Spec.Symtable=cpython-symtable', 'correspondence', not dis['spec-symtable'], json.dumps(dis['spec-symtable'][:2]))
         run.oblige('correspondence:cpython-trace-within-Spec.Dynamic', 'correspondence', not dis['trace-in-spec-dynamic'],
                    json.dumps(dis['trace-in-spec-dynamic'][:2]))
+        # the theorems' conclusions must be observed on the real code wherever their hypotheses hold
+        run.oblige('consistency:C08_classes_nested-on-real-code', 'correspondence', not dis['thm-classes'], json.dumps(dis['thm-classes'][:2]))
+        run.oblige('consistency:C08_dynamic_comp_lookup-on-real-code', 'correspondence', not dis['thm-dynamic'], json.dumps(dis['thm-dynamic'][:2]))
     else:
         run.oblige('correspondence:c08', 'correspondence', False, 'driver unavailable')
     run.cov['stats'] = dict(sorted(stats.items()))
